@@ -1831,6 +1831,91 @@ Proof.
     destruct H4 as [E|H4]; [injection E as _ E; congruence|]. apply NI1. apply in_map_iff. exists (id, Some c0, 3). auto.
 Qed.
 
+(* the state right before the wake-up of a final acknowledgement (PUBACK, PUBCOMP, SUBACK, UNSUBACK) *)
+Definition pre_facts (s s2 : sink) (k id : N) : Prop :=
+  exists c rest, inflight s = (id, Some c, k) :: rest /\ inflight s2 = rest /\ tasks s2 = tasks s /\
+    cap s2 = cap s /\ wrb s2 = wrb s /\ waiters s2 = waiters s /\ io s2 = io s /\
+    (chans s2 = fst (ch_send (chans s) c k) \/ chans s2 = ch_drop_rx (chans s) c).
+
+Lemma inv_ack_pre ks s k id s1 :
+  inv ks s -> io s = 0 -> k <> 2 -> pkt_ack_inner s k id = (s1, true) ->
+  exists s2, s1 = wake s2 1 /\ pre_facts s s2 k id /\ inv ks s2.
+Proof.
+  intros I Hio K2. pose proof I as []. unfold pkt_ack_inner.
+  destruct (inflight s) as [|[[i tx] tp] rest] eqn:HI; [discriminate|].
+  destruct (i_inf0 i tx tp) as (Hid & Htp & c & -> & Kc & Oc); [rewrite ?HI; now left|].
+  destruct (N.eqb_spec i id) as [->|]; [|discriminate]. cbn [negb].
+  destruct (N.eqb_spec k tp) as [->|]; [|discriminate]. cbn [negb].
+  assert (ND := i_infnd0). rewrite ?HI in ND. cbn [map fst3 fst] in ND. inversion ND as [|? ? NI1 NI2]; subst.
+  assert (NT := i_txnd0). rewrite ?HI in NT. cbn [txs flat_map snd fst app] in NT. inversion NT as [|? ? NT1 NT2]; subst.
+  fold (txs rest) in NT1, NT2.
+  assert (IDS : forall i, memN i (removeN id (ids s)) = true <-> In i (map fst3 rest)).
+  { intros i. rewrite memN_In, In_removeN, <- memN_In, (i_ids0 Hio), ?HI. cbn [map fst3 fst In].
+    split; [intros [[<-|H] N]; [congruence|auto]|]. intros H. split; auto. intros ->. contradiction. }
+  assert (RXS : forall i c0, In (i, c0) (rxm s) -> i <> id -> In (i, Some c0, 3) rest).
+  { intros i c0 H N. destruct (i_rxm0 i c0 H) as (_ & _ & _ & H4 & _). specialize (H4 Hio). rewrite ?HI in H4.
+    destruct H4 as [E|H4]; auto. injection E as E. congruence. }
+  assert (SEND : forall v, 
+     (ch_get (fst (ch_send (chans s) c v)) c = mkChan CFilled v true /\ c_rx (cg s c) = true) \/
+     (c_rx (ch_get (fst (ch_send (chans s) c v)) c) = false /\ (forall t x, In (t, x) (tasks s) -> ~ In c (trx x)) /\ 
+      ch_get (fst (ch_send (chans s) c v)) c = cg s c)).
+  { intros v. rewrite ch_send_get, Nat.eqb_refl. cbn [andb]. fold (cg s c). destruct (c_rx (cg s c)) eqn:R; [left; auto|right].
+    split; auto. split; auto. intros t x H Hc. destruct (i_task0 t x H) as [A B]. unfold trx in Hc.
+    apply in_app_or in Hc as [Hc|Hc].
+    - unfold st_ok in A. destruct (tst x); cbn [trx_st In] in Hc; try contradiction; destruct Hc as [<-|[]];
+        destruct A as (_ & A & _); congruence.
+    - unfold sm_ok, pend_rx in *. destruct (tstream x) as [sm|]; [|contradiction]. destruct B as [_ B].
+      destruct (pend sm) as [|m|c' m]; try contradiction. destruct Hc as [<-|[]]. destruct B as (_ & B & _). congruence. }
+  assert (SG : forall v c', c' <> c -> ch_get (fst (ch_send (chans s) c v)) c' = ch_get (chans s) c').
+  { intros v c' N. rewrite ch_send_get. destruct (Nat.eqb_spec c c'); [congruence|reflexivity]. }
+  destruct (N.eqb_spec tp 2) as [->|N2]; [contradiction|].
+  destruct (N.eqb_spec tp 3) as [->|N3].
+  { (* PUBCOMP *)
+    sk. destruct (rxm_find id (rxm s)) as [c0|] eqn:RF.
+    - apply rxm_find_In in RF.
+      assert (c0 = c) as ->.
+      { destruct (i_rxm0 id c0 RF) as (_ & _ & _ & H4 & _). specialize (H4 Hio). rewrite ?HI in H4.
+        destruct H4 as [E|H4]; [now injection E as <-|]. exfalso. apply NI1. apply in_map_iff. exists (id, Some c0, 3). auto. }
+      intros E. injection E as <-. eexists. split; [reflexivity|].
+      destruct (i_rxm0 id c RF) as (_ & R1 & _ & _ & _ & R2).
+      assert (EF : fst (ch_send (ch_drop_rx (chans s) c) c 3) = ch_drop_rx (chans s) c).
+      { unfold ch_send. rewrite ch_drop_rx_get, Nat.eqb_refl. cbn [drx c_rx fst]. reflexivity. }
+      unfold send_opt, drop_rx. rewrite send_eq. sk. rewrite EF.
+      split; [exists c, rest; sk; repeat split; auto|].
+      apply inv_core with (set_rxm (set_chans (set_ids (set_inflight s rest) (removeN id (ids s))) (ch_drop_rx (chans s) c)) (rxm_del id (rxm s))).
+      1-8: reflexivity.
+      apply (inv_pop ks s id c 3 rest (ch_drop_rx (chans s) c) (removeN id (ids s)) (rxm_del id (rxm s)) I Hio HI);
+        [apply ch_drop_rx_length| | | exact IDS | | now apply rxm_del_nd_fst | now apply rxm_del_nd_snd].
+      + intros c' N. rewrite ch_drop_rx_get. destruct (Nat.eqb_spec c c'); [congruence|reflexivity].
+      + right. rewrite ch_drop_rx_get, Nat.eqb_refl. cbn [drx c_rx]. split; auto. split; auto.
+        intros i0 H. apply rxm_del_In in H as [H N]. apply N.
+        exact (NoDup_map_inv_snd _ _ _ _ i_rxmc0 H RF).
+      + intros i0 c0 H. apply rxm_del_In in H as [H N]. split; auto.
+    - intros E. injection E as <-. eexists. split; [reflexivity|].
+      split; [exists c, rest; unfold send_opt; rewrite send_eq; sk; repeat split; auto|].
+      apply inv_core with (set_rxm (set_chans (set_ids (set_inflight s rest) (removeN id (ids s))) (fst (ch_send (chans s) c 3))) (rxm s)).
+      1-8: unfold send_opt; rewrite send_eq; reflexivity.
+      apply (inv_pop ks s id c 3 rest (fst (ch_send (chans s) c 3)) (removeN id (ids s)) (rxm s) I Hio HI);
+        [apply ch_send_length| | | exact IDS | | exact i_rxmk0 | exact i_rxmc0].
+      + intros c' N. apply SG; auto.
+      + destruct (SEND 3) as [S|(S1 & S2 & S3)]; [left; exact S|right]. split; auto. split; auto.
+        intros i0 H. destruct (i_rxm0 i0 c H) as (_ & R & _). fold (cg s c) in S3. rewrite S3 in S1. congruence.
+      + intros i0 c0 H. split; auto. apply RXS; auto. intros ->. eapply rxm_find_None; eauto. }
+  (* PUBACK / SUBACK / UNSUBACK *)
+  sk. intros E. injection E as <-. eexists. split; [reflexivity|].
+  split; [exists c, rest; unfold send_opt; rewrite send_eq; sk; repeat split; auto|].
+  apply inv_core with (set_rxm (set_chans (set_ids (set_inflight s rest) (removeN id (ids s))) (fst (ch_send (chans s) c tp))) (rxm s)).
+  1-8: unfold send_opt; rewrite send_eq; reflexivity.
+  apply (inv_pop ks s id c tp rest (fst (ch_send (chans s) c tp)) (removeN id (ids s)) (rxm s) I Hio HI);
+    [apply ch_send_length| | | exact IDS | | exact i_rxmk0 | exact i_rxmc0].
+  + intros c' N. apply SG; auto.
+  + destruct (SEND tp) as [S|(S1 & S2 & S3)]; [left; exact S|right]. split; auto. split; auto.
+    intros i0 H. destruct (i_rxm0 i0 c H) as (K' & _). rewrite Kc in K'. destruct (N.eqb_spec tp 3); [contradiction|discriminate].
+  + intros i0 c0 H. split; auto. apply RXS; auto. intros ->.
+    destruct (i_rxm0 id c0 H) as (_ & _ & _ & H4 & _). specialize (H4 Hio). rewrite ?HI in H4.
+    destruct H4 as [E|H4]; [injection E as _ E; congruence|]. apply NI1. apply in_map_iff. exists (id, Some c0, 3). auto.
+Qed.
+
 Lemma inv_ack_false ks s k id s1 :
   inv ks s -> pkt_ack_inner s k id = (s1, false) -> inv ks (do_close s1).
 Proof.
